@@ -108,7 +108,7 @@ IfaceKinds == {"generic_modproc", "generic_body", "operator", "assignment", "abs
 
 (* ---- multi-entity declaration statements ----------------------------------------------------- *)
 EntDims == {"none", "d3", "d22"}
-MultiEnt(b, dc) == [dims : EntDims, init : (IF dc THEN {"none", "value"} ELSE {"none"}), clen : (IF b = "character" THEN {"none", "star5"} ELSE {"none"})]
+MultiEnt(b, dc) == [dims : EntDims, init : (IF dc THEN {"none", "value"} ELSE {"none"}), clen : (IF b = "character" THEN {"none", "star5", "starparen"} ELSE {"none"})]
 WFMulti(m) ==
   /\ Len(m.ents) \in 1..3
   /\ (m.attrdim # "none") => m.dcolon
@@ -133,7 +133,7 @@ Choose ==
             \E pl \in [as -> {"decl", "stmt"}] :
                LET dd == [base |-> b, kindsp |-> ks, role |-> r, attrs |-> as, dims |-> dm, dimform |-> df, init |-> ini, place |-> pl] IN
                /\ WFDecl(dd) /\ facts' = dd
-               /\ \E up \in BOOLEAN, lay \in Layouts, ct \in (IF ini = "array" THEN {"bracket", "slash"} ELSE {"bracket"}) :
+               /\ \E up \in BOOLEAN, lay \in Layouts, ct \in (IF ini = "array" THEN {"bracket", "slash", "typed"} ELSE {"bracket"}) :
                      spelling' = [upper |-> up, layout |-> lay, ctor |-> ct]
        [] Slice = "unit" ->
             \E u \in [kind : UnitKinds, nargs : 0..2, argdecl : {"none", "typed", "intent", "implicit", "dummyproc", "dummyprocopt"},
@@ -152,7 +152,10 @@ Choose ==
             \E es \in [1..n -> MultiEnt(b, dc)] :
                LET m == [base |-> b, dcolon |-> dc, attrdim |-> ad, typelen |-> tl, ents |-> es] IN
                /\ WFMulti(m) /\ facts' = [x \in DOMAIN m \ {"dcolon"} |-> m[x]]
-               /\ \E up \in BOOLEAN, tight \in BOOLEAN, lay \in Layouts : spelling' = [upper |-> up, tight |-> tight, dcolon |-> dc, layout |-> lay]
+               \* semi: one statement per entity, all on one line, separated by ";" (the same declared facts)
+               /\ \E up \in BOOLEAN, tight \in BOOLEAN, lay \in Layouts, semi \in BOOLEAN :
+                     /\ (semi => lay = "plain" /\ n >= 2)
+                     /\ spelling' = [upper |-> up, tight |-> tight, dcolon |-> dc, layout |-> lay, semi |-> semi]
        [] Slice = "head" ->
             \E h \in [kind : {"function", "subroutine"}, restype : ResTypes, prefix : SUBSET {"pure", "impure", "elemental", "recursive"},
                       resclause : BOOLEAN, bindc : {"none", "plain", "named"}, nargs : 0..1] :
